@@ -76,6 +76,8 @@ pub struct E2Params {
     pub sched: SchedSpec,
     pub max_steps: u32,
     pub generous_bound: u32,
+    #[serde(default)]
+    pub generous_requests: u32,
     pub lib_tasks: u32,
     pub lib_len: u32,
     pub lib_calls: u32,
@@ -375,6 +377,7 @@ pub fn exec(ctx: &Ctx, dir: &Path, cmd: &Cmd) -> Result<Outcome, HarnessError> {
             sched: e2.sched.clone(),
             max_steps: e2.max_steps,
             generous_bound: e2.generous_bound,
+            generous_requests: e2.generous_requests,
             lib_tasks: e2.lib_tasks,
             lib_len: e2.lib_len,
             lib_calls: e2.lib_calls,
